@@ -1,4 +1,3 @@
 SPECIFICATION Spec
 INVARIANT LeafInv
-INVARIANT SafetyInv
 CHECK_DEADLOCK FALSE
